@@ -780,7 +780,16 @@ static int _cmp_name(bbuf *a, bbuf *b)
                    b->bptr,
                    MIN(a->bsize, b->bsize));
 
-    return (r == 0) ? (int) (a->bsize - b->bsize) : r;
+    if (r != 0) {
+        return r;
+    }
+
+    /* Equal prefix: order by length. (The size_t difference does not fit an int.) */
+    if (a->bsize == b->bsize) {
+        return 0;
+    }
+
+    return (a->bsize < b->bsize) ? -1 : 1;
 }
 
 static uint16_t _process_one(binson_parser *parser, bbuf *consumed, size_t *bytes_consumed)
